@@ -3,6 +3,7 @@ package modsim
 import (
 	"fmt"
 	"strings"
+	"time"
 )
 
 // PanicMatches reports whether a rendered report carries the panic value of the given kind.
@@ -81,6 +82,7 @@ func CheckC06(sc *Scenario, res *Result) *Violation {
 	// covered by that error.
 	lcName := map[string]string{"prep": "prep module", "start": "start module", "stop": "stop module"}
 	beginSeq := map[string]int64{}
+	beginT := map[string]int64{}
 	apiAfter := func(seq int64) *Event {
 		for i := range res.Events {
 			e := &res.Events[i]
@@ -94,6 +96,7 @@ func CheckC06(sc *Scenario, res *Result) *Violation {
 		switch e.Kind {
 		case "prep-begin", "start-begin", "stop-begin":
 			beginSeq[e.Kind[:len(e.Kind)-6]+"|"+e.Mod] = e.Seq
+			beginT[e.Kind[:len(e.Kind)-6]+"|"+e.Mod] = e.T
 		case "prep-end", "start-end", "stop-end":
 			if e.Info == "panic" {
 				anyPanic = true
@@ -119,6 +122,11 @@ func CheckC06(sc *Scenario, res *Result) *Violation {
 					// prep routines are only ever invoked by Start, which does not wait for the other preps once one has
 					// failed: such a routine may even begin after Start has returned (with its error)
 					from = 0
+				}
+				if phase == "stop" && sc.StopTimeoutMS > 0 && e.T-beginT[phase+"|"+e.Mod] > int64(sc.StopTimeoutMS)*int64(time.Millisecond)/2 {
+					// the routine took so long (a starved process) that the module system may have stopped waiting for
+					// it before it panicked: the call cannot know of the panic then
+					continue
 				}
 				if call := apiAfter(from); call != nil && call.ErrNil {
 					return violf("C06-lifecycle-error", "%s returned nil although the %s routine of %s, invoked by that call, panicked", call.Info, phase, e.Mod)
